@@ -20,6 +20,9 @@ def is_freq_scalar(q, positive):
     try:
         if not isinstance(q, u.Quantity) or not q.isscalar:
             return False
+        # a frequency unit proper (not a logarithmic one, not a length admitted by an ambient spectral equivalency)
+        if not isinstance(q.unit, u.UnitBase) or q.unit.physical_type != "frequency":
+            return False
         v = q.to_value(u.Hz)
         return bool(np.isfinite(v)) and (v > 0 or not positive)
     except Exception:
